@@ -209,3 +209,84 @@ Print Assumptions c17_consumers_join_only_safe.
 Theorem c17_join_sites_modelled : join_sites = map fst modelled_join_sites.
 Proof. vm_compute. reflexivity. Qed.
 Print Assumptions c17_join_sites_modelled.
+
+(* ====================================================================================
+   Round 5 — the property on the model GENERATED from the Rust source.
+   Gen/C17Lookup.v is compiled on every run by translate/c17_lookup.py from the bodies of leafname,
+   safe_leafname, replace_or_add_extension, the four builders, moz_lookup, lookup (lib.rs) and the
+   escape set of join_rel (http.rs), over the std vocabulary of C17/Prims.v.  [module_view] is the module
+   as the builders see it (code_file, code_identifier, debug_file, debug_identifier as breakpad text). *)
+From RM Require Import C17.Prims C17.Tie Gen.C17Lookup.
+
+(* the generated functions ARE the model the theorems above are about: for all strings / modules.
+   (which separator leafname searches, the emptiness / `..` / drive tests of safe_leafname, the order of the
+   `?` steps and which leaf goes where in each builder, moz_lookup's pop/push, lookup's dispatch, the
+   characters join_rel escapes, and no slice expression that could panic) *)
+Theorem c17_src_tie :
+  (forall p, g_leafname p = leafname p) /\
+  (forall p, g_safe_leafname p = safe_leafname p) /\
+  (forall f e n, g_replace_or_add_extension f e n = replace_or_add_extension f e n) /\
+  (forall m k, g_lookup m k = mv_args (lookup k) m) /\
+  (forall m, g_breakpad_sym_lookup m = mv_args (lookup KBreakpadSym) m) /\
+  (forall m, g_binary_lookup m = mv_args (lookup KBinary) m) /\
+  (forall m, g_extra_debuginfo_lookup m = mv_args (lookup KExtraDebugInfo) m) /\
+  (forall m, g_code_info_breakpad_sym_lookup m = code_info_breakpad_sym_lookup (m_code_file m) (m_code_identifier m)) /\
+  (forall l, g_moz_lookup l = moz_lookup l) /\
+  (forall p, bytes p -> g_join_rel_enc p = join_rel_enc p) /\
+  g_partial_ops = O.
+Proof. exact src_tie. Qed.
+Print Assumptions c17_src_tie.
+
+(* the property, stated directly on the generated code: every module (all strings incl. mixed and
+   trailing separators, hex ids), every FileKind *)
+Theorem c17_src_relative : forall m kind l, mv_hex m -> g_lookup m kind = Some l ->
+  safe_rel (cache_rel l) /\ safe_rel (server_rel l).
+Proof. exact src_relative. Qed.
+Print Assumptions c17_src_relative.
+
+(* ... and joined the way the consumers join it: cache_rel onto any root by Path::join (POSIX / Windows)
+   or concatenation keeps the root a prefix; server_rel — also after moz_lookup — through the generated
+   join_rel encoder and Url::join is requested below the base directory of every base path *)
+Theorem c17_src_contained : forall m kind l, mv_bytes m -> mv_hex m -> g_lookup m kind = Some l ->
+  (forall style root, is_prefix root (join style root (cache_rel l)) = true) /\
+  (forall base_path, exists r, g_request_path base_path (server_rel l) = Some r /\
+                               is_prefix (base_dir base_path) r = true) /\
+  (forall l', g_moz_lookup l = Ret l' ->
+     cache_rel l' = cache_rel l /\
+     forall base_path, exists r, g_request_path base_path (server_rel l') = Some r /\
+                                 is_prefix (base_dir base_path) r = true).
+Proof. exact src_contained. Qed.
+Print Assumptions c17_src_contained.
+
+Theorem c17_src_code_info_contained : forall m p base_path, mv_bytes m -> mv_hex m ->
+  g_code_info_breakpad_sym_lookup m = Some p ->
+  safe_rel p /\ exists r, g_request_path base_path p = Some r /\ is_prefix (base_dir base_path) r = true.
+Proof. exact src_code_info_contained. Qed.
+Print Assumptions c17_src_code_info_contained.
+
+(* moz_lookup's unwrap never panics on what the generated binary_lookup returns; the result stays safe *)
+Theorem c17_src_moz : forall m l, g_binary_lookup m = Some l ->
+  exists l', g_moz_lookup l = Ret l' /\ cache_rel l' = cache_rel l /\ (mv_hex m -> safe_rel (server_rel l')).
+Proof. exact src_moz. Qed.
+Print Assumptions c17_src_moz.
+
+(* non-vacuity: a module with mixed separators ("c:\b/T.PDB", code file "C:/w\k.dll"); the names the seeded
+   changes C17-5 / C17-6 turn into escapes are declined ("x\../s" has the leaf "s"; "a\" and "C:\w/" have none) *)
+Definition ex_module (cf df : str) : module_view :=
+  {| m_code_file := cf; m_code_identifier := Some [53;97]; m_debug_file := Some df; m_debug_identifier := Some ex_id |}.
+Example c17_nonvacuous_src :
+  (exists l, g_lookup (ex_module [67;58;47;119;92;107;46;100;108;108] [99;58;92;98;47;84;46;80;68;66]) KBinary = Some l /\
+             cache_rel l = [84;46;80;68;66;47] ++ ex_id ++ [47;107;46;100;108;108] /\
+             server_rel l = [107;46;100;108;108;47;53;97;47;107;46;100;108;108]) /\
+  mv_hex (ex_module [] []) /\
+  option_map cache_rel (g_lookup (ex_module [107] [120;92;46;46;47;115]) KExtraDebugInfo)
+    = Some ([115;47] ++ ex_id ++ [47;115]) /\
+  g_lookup (ex_module [107] [97;92]) KBreakpadSym = None /\
+  g_lookup (ex_module [67;58;92;119;47] [97]) KBinary = None /\
+  g_leafname [120;47;46;46;92;115;47] = [] /\ g_leafname [120;92;46;46;47;115] = [115] /\
+  g_join_rel_enc [97;58;37;32;98] = [97;37;51;65;37;50;53;37;50;48;98].
+Proof.
+  split; [eexists; split; [vm_compute; reflexivity | split; reflexivity]|].
+  split; [split; [|repeat constructor]; repeat (constructor; [reflexivity|]); constructor|].
+  repeat split; vm_compute; reflexivity.
+Qed.
